@@ -1414,6 +1414,52 @@ def stiff_energy_checks(ctx, rng, source=False, ncases=None):
     return None
 
 
+class _Params(object):
+    """stand-in for the translated kernel when the translator refuses the source: parameter names read off the executed source function"""
+    def __init__(self, names):
+        self.params = list(names)
+
+
+def stiff_source_reading_predicate(ctx, rng):
+    """translator-independent source arm: the three kernel files EXECUTED from their text (tools/cyexec.py, C integrals compiled from lib/src)
+    against the energies of Spec/StiffInterface.lean - works also when gen_stiff.py refuses an edited source.  returns None or (text, replay)"""
+    import inspect
+    from tools import cyexec, cyexec_check as cc
+    try:
+        ext = source_tie.stiffener_externs()
+    except Exception as e:                                   # noqa
+        ctx.log('C library for the source reading unusable: %r' % (e,))
+        return None
+    for model, fname in gen_stiff.FILES.items():
+        try:
+            ns = cyexec.load(cc.source('stiffener/models/%s.pyx' % fname), repo=cc.REPO, externs=ext)
+        except Exception as e:                               # noqa
+            ctx.log('source reading of %s unusable: %r' % (fname, e))
+            continue
+        for name in sorted(gen_stiff.FUNCS[model]):
+            if name not in ns:
+                continue
+            K = _Params(inspect.signature(ns[name]).parameters)
+            diag = gen_stiff.FUNCS[model][name][1][0] == gen_stiff.FUNCS[model][name][1][1]
+            for args in stiff_args(name, rng, ctx.scale(6, 20)):
+                ctx.evaluations += 1
+                try:
+                    got = np.asarray(ns[name](*args).toarray(), dtype=float)
+                    if diag:
+                        got = panel_v.finalize_sym(got)
+                    want = stiff_oracle(model, name, K, args)
+                except Exception as e:                       # noqa
+                    ctx.log('source reading of %s.%s: %r' % (fname, name, e))
+                    break
+                d = stiff_rel(got, want, args)
+                if d > 1e-9:
+                    i, j = np.unravel_index(np.abs(got - want).argmax(), got.shape)
+                    return ('%s.%s (source as written, executed from its text): the matrix differs from the Hessian of the energy of Spec/StiffInterface.lean: '
+                            'rel %.3e at [%d,%d] (source %.9e, energy %.9e)' % (fname, name, d, i, j, got[i, j], want[i, j]),
+                            dict(kind='stiffener kernel energy (source reading)', kernel=name, args=args))
+    return None
+
+
 def describe(case, dist):
     if case['kind'] == 'asm':
         n = len(case['panels'])
@@ -1535,6 +1581,11 @@ def search(ctx, reason):
     except Exception as e:                        # noqa  (the translator itself may be what broke)
         ctx.log('source arm of the stiffener kernels not available: %r' % (e,))
         found = None
+    if not found:
+        try:
+            found = stiff_source_reading_predicate(ctx, rng)
+        except Exception as e:                    # noqa
+            ctx.log('source reading arm of the stiffener kernels not available: %r' % (e,))
     if found:
         ctx.violation('C13 fails on the source as written: ' + found[0] + ' [after: %s]' % '; '.join(reason)[:300], found[1])
         return True
